@@ -1,5 +1,9 @@
 //! Independent reference implementations (codecs, models, reference server).
 //! This crate must never depend on the `rdp` crate.
 pub mod crypto;
+pub mod der;
+pub mod gcc;
+pub mod per;
 pub mod planar;
+pub mod rd;
 pub mod rle16;
